@@ -268,7 +268,7 @@ func keysOf(m map[string]bool) []string {
 func runC06(tier string, _ []string) int {
 	c := vlib.NewCtx("C06", tier, "exploration")
 	vlib.SetPortBlock(6)
-	c.SetRule("per case a fresh instance and a graph of one generator class (chain, wide, mirror, diamond, tombstoned edge in the middle, node under two parents one of which is deleted, deleted then undeleted, random history, a node whose first edge names no parent and that is placed below a real node later, a node moved into a group of its own parent, a ladder of twelve diamonds with 4096 ways from the bottom to the top); then every node (incl. the root and one detached node that has points but no edge) is written once with an acknowledged node batch and every placement once with an edge batch (newer than what is stored; some carry a point of the tombstone's type under another key, which says nothing about the edge); an up.> subscription on the writer's connection is drained at the reply barrier and compared with the model: {node} + ancestors through live edges (node points) / through any edges (edge points) + the root sentinel, payload equal to the points sent. In every second case 4-9 random legal graph operations follow (mirror, move, delete, undelete, create) and every node and placement is written and checked again. (Thorough tier: one instance serves 66 000 writes, then 200 quiet nodes are written again at distances around 2^16 writes.) In every third case a concurrent phase follows: an edge is deleted / undeleted 3-8 times while a second connection writes back to back to a node below it; at rest afterwards, writes below the edge must be announced exactly according to the final graph. distinct = (shape, node|edge, size of expected set, duplicates seen)")
+	c.SetRule("per case a fresh instance and a graph of one generator class (chain, wide, mirror, diamond, tombstoned edge in the middle, node under two parents one of which is deleted, deleted then undeleted, random history, a node whose first edge names no parent and that is placed below a real node later, a node moved into a group of its own parent, a ladder of twelve diamonds with 4096 ways from the bottom to the top); then every node (incl. the root and one detached node that has points but no edge) is written once with an acknowledged node batch and every placement once with an edge batch (newer than what is stored; some carry a point of the tombstone's type under another key, which says nothing about the edge); an up.> subscription on the writer's connection is drained at the reply barrier and compared with the model: {node} + ancestors through live edges (node points) / through any edges (edge points) + the root sentinel, payload equal to the points sent. In every second case 4-9 random legal graph operations follow (mirror, move, delete, undelete, create) and every node and placement is written and checked again. (Thorough tier: one instance serves 66 000 writes, then 200 quiet nodes are written again at distances around 2^16 writes.) In every third case a concurrent phase follows: an edge is deleted / undeleted 6-17 times while a second connection writes back to back to a node below it; at rest afterwards, writes below the edge must be announced exactly according to the final graph. distinct = (shape, node|edge, size of expected set, duplicates seen)")
 	c.Assume("the store publishes rebroadcasts before the reply on one connection and NATS keeps per-publisher order to a subscriber connection (barrier, DESIGN C05)")
 	nGraphs := c.N(160, 1600)
 	vlib.Parallel(nGraphs, 6, func(i int) {
@@ -480,7 +480,7 @@ func runC06(tier string, _ []string) int {
 						wrote++
 					}
 				}()
-				toggles := 3 + r.Intn(6)
+				toggles := 6 + r.Intn(12)
 				var tErr error
 				for t := 0; t < toggles && tErr == nil; t++ {
 					v := 1.0
